@@ -406,6 +406,12 @@ func runSegCase(c segCase, t tools, evals *int, verbose bool) string {
 			return "unreadable"
 		}
 		trex := trexFor(initF.Init, trackID)
+		if fin, err := decodeBytes(data); err == nil && fin.Moov != nil && ti < len(fin.Moov.Traks) && c.cut == 0 {
+			if d := trackDescribed(initF.Init, trackID, fin.Moov.Traks[ti], nil, true); d != "" {
+				fail("segmenter", "init-differs", c.witness(), fmt.Sprintf("mode %s: %s: %s", c.mode, filepath.Base(initPath), d))
+				return "init-differs"
+			}
+		}
 		var got []flat
 		for _, sf := range files {
 			f, err := decodePath(sf.path)
